@@ -289,7 +289,9 @@ def read_pairs(path, enc):
 def run_c18(t, tier, res):
     from lib_guesser.omen.markov_cracker import MarkovCracker
     from lib_guesser.omen.optimizer import Optimizer
-    flavour = {"nonascii": t.chance(1, 5), "long": t.chance(1, 4), "large": t.chance(1, 30 if tier == "quick" else 8)}
+    enc = t.choice(["utf-8", "utf-8", "utf-8", "iso-8859-1", "cp1251", "cp1252"])
+    flavour = {"nonascii": t.chance(1, 5) or (enc != "utf-8" and t.chance(2, 3)), "long": t.chance(1, 4),
+               "large": t.chance(1, 30 if tier == "quick" else 8), "encoding": enc}
     pws, opts = trainer.gen_list(t, flavour)
     style = t.draw(4)
     if style == 0:
